@@ -154,7 +154,7 @@ theorem crash_incomplete (cfg : Cfg) (M : Manifest) (m : Mem) (c : Choice) (d : 
         ∧ (∃ n, (crashStep cfg m c d k h).data.rows
                   = d.data.rows ++ (c.accs.map (fun a => a.old.pn)).take n
                 ∧ (crashStep cfg m c d k h).data.garbled = d.data.garbled)
-       ∨ (cfg.variant = .asIs ∧ k = restartIdx cfg m c d + 1
+       ∨ (inTruncWindow cfg m c d k = true
           ∧ ((crashStep cfg m c d k h).restart = .empty ∨ (crashStep cfg m c d k h).restart = .part))) := by
   obtain ⟨r0, hr0, _⟩ := hI.record
   refine ⟨r0, hr0, ?_⟩
@@ -173,7 +173,7 @@ theorem crash_incomplete (cfg : Cfg) (M : Manifest) (m : Mem) (c : Choice) (d : 
       (k - (loopEffs cfg m c d).length) h
     rw [crash_split_ge cfg m c d k h hk']
     rw [stepEffs_length] at hlt
-    rcases t2 with t | ⟨t, tl⟩ | ⟨tv, tj, tt⟩
+    rcases t2 with t | ⟨t, tl⟩ | ⟨tv, tt⟩
     · left
       refine ⟨t, fun hwin => ?_, ?_⟩
       rotate_left
@@ -210,9 +210,11 @@ theorem crash_incomplete (cfg : Cfg) (M : Manifest) (m : Mem) (c : Choice) (d : 
           · right; exact w
     · omega
     · right
-      refine ⟨tv, ?_, tt⟩
-      unfold restartIdx
-      have : (loopEffs cfg m c d).length = (accLoop cfg c.accs m.trajNum m.olds d).length := rfl
-      omega
+      refine ⟨?_, tt⟩
+      have hLA : (loopEffs cfg m c d).length = (accLoop cfg c.accs m.trajNum m.olds d).length := rfl
+      unfold inTruncWindow restartIdx
+      rcases tv with ⟨tv, tj⟩ | ⟨tv, tj⟩
+      · rw [tv]; simp only [beq_iff_eq]; omega
+      · rw [tv]; simp only [beq_iff_eq]; omega
 
 end Infretis.Fs
